@@ -661,7 +661,7 @@ def type_names_are_not_values(F, rep, rule="TYPE-NAME"):
 
 def ret_fold(F, rep):
     n = 0
-    for f in ("expression", "statement", "expression_block", "definition"):
+    for f in ("expression", "statement", "expression_block", "definition", "outer_statement", "solve"):
         fn = F.fn(TC + f)
         rep.analysed(fn)
         n += tc.ret_fold(F, rep, "RET-FOLD", fn)
